@@ -502,9 +502,45 @@ def r14_5(prog, rep, rid="R14.5"):
     for f in prog.fns_in(X):
         if f.cfg and any((c.get("fn") or "") == "posix_spawnattr_setsigmask" for c in _fcalls(f)):
             raise AnalysisBroken("R14.5: the spawn sets a signal mask of its own (posix_spawnattr_setsigmask): re-read the rule")
-    if not spawners or "block" not in eff.values() or "unblock" not in eff.values():
-        raise AnalysisBroken("R14.5: spawner / mask helpers not found (%s, %s)" % (sorted(spawners), eff))
+    if not spawners:
+        raise AnalysisBroken("R14.5: spawner not found")
     n = 0
+
+    def direct(fn_, x, store):
+        """Mask operations written out in the walked function itself (`sigemptyset(s); sigprocmask(SIG_SETMASK, s, NULL)`): the sets
+        are followed as ghosts (does the set hold the deadline signal?)."""
+        nm = x.get("fn") or ""
+        a = x.get("a", [])
+
+        def setname(e):
+            e = strip_casts(fn_.cfg.resolve(e))
+            if e.get("k") == "un" and e["op"] == "&":
+                e = strip_casts(e["e"])
+            if e.get("k") == "idx":
+                e = strip_casts(e["b"])
+            return "$set:" + lv(e)
+        if nm == "sigemptyset" and a:
+            return {setname(a[0]): 0}
+        if nm == "sigfillset" and a:
+            return {setname(a[0]): 1}
+        if nm == "sigaddset" and len(a) == 2:
+            v = const_eval(fn_, strip_casts(fn_.cfg.resolve(a[1])))
+            if v == sig or v is None:
+                return {setname(a[0]): 1}
+            return None
+        if nm == "sigprocmask" and len(a) >= 2:
+            how = const_eval(fn_, strip_casts(fn_.cfg.resolve(a[0])))
+            a1 = strip_casts(fn_.cfg.resolve(a[1]))
+            if const_eval(fn_, a1) == 0 and not (a1.get("k") in ("ref", "un", "idx")):
+                return None     # a NULL set: the mask is only read
+            has = store.get(setname(a[1]))
+            if how == 2:
+                return {"$mask": -1 if has is None else has}
+            if how == 0 and has != 0:
+                return {"$mask": 1 if has == 1 else -1}
+            if how == 1 and has == 1:
+                return {"$mask": 0}
+        return None
     # a spawner that empties the mask itself in front of posix_spawn() needs nothing from its callers
     rt = prog.fn("run_task", X)
     own = []
@@ -516,6 +552,7 @@ def r14_5(prog, rep, rid="R14.5"):
                 return {"$mask": 1 if eff[nm] == "block" else 0}
             if nm in ("posix_spawn", "posix_spawnp"):
                 own.append(store.get("$mask"))
+            return direct(rt, x, store)
         return None
     AbsWalk(rt, set(), init={"$mask": -1}, effect=eff_rt, max_states=20000).run()
     if own and all(m == 0 for m in own):
@@ -529,13 +566,14 @@ def r14_5(prog, rep, rid="R14.5"):
             continue
         seen = []
 
-        def effect(b, i, x, store, seen=seen):
+        def effect(b, i, x, store, seen=seen, f=f):
             if isinstance(x, dict) and x.get("k") == "call":
                 nm = x.get("fn")
                 if nm in eff:
                     return {"$mask": 1 if eff[nm] == "block" else 0}
                 if nm in spawners:
                     seen.append((store.get("$mask"), x.get("line")))
+                return direct(f, x, store)
             return None
         AbsWalk(f, set(), init={"$mask": -1}, effect=effect, max_states=20000).run()
         n += 1
